@@ -68,17 +68,19 @@ Init == /\ \E k \in MK \cup {"eof"} : hist = <<k>> /\ evs = <<<<"T", k>>>>
         /\ stack = <<FGen(LvlZero)>> /\ ret = NoRet /\ status = "run"
         /\ result = [ok |-> FALSE, node |-> <<>>, pos |-> 0] /\ ticks = 0
 
+Running == status = "run" /\ stack # <<>>
+
 \* ---- generate_ast --------------------------------------------------------
-GenEnter == /\ Top.p = "gen" /\ Top.st = "enter" /\ ret = NoRet
+GenEnter == /\ Running /\ Top.p = "gen" /\ Top.st = "enter" /\ ret = NoRet
             /\ ticks' = ticks + 1
             /\ evs' = Append(evs, <<"G", Top.L>>)
             /\ stack' = Append(Repl([Top EXCEPT !.st = "num"]), FPNum)
             /\ UNCHANGED <<hist, ret, status, result>>
-GenAfterNum == /\ Top.p = "gen" /\ Top.st = "num" /\ ret # NoRet
+GenAfterNum == /\ Running /\ Top.p = "gen" /\ Top.st = "num" /\ ret # NoRet
                /\ IF ret.ok THEN stack' = Repl([Top EXCEPT !.st = "loop", !.left = ret.node]) /\ ret' = NoRet
                             ELSE Return(ret)
                /\ UNCHANGED <<hist, status, result, ticks, evs>>
-GenLoop == /\ Top.p = "gen" /\ Top.st = "loop" /\ ret = NoRet
+GenLoop == /\ Running /\ Top.p = "gen" /\ Top.st = "loop" /\ ret = NoRet
            /\ IF Top.L < Prec(cur)
               THEN /\ ticks' = ticks + 1
                    /\ evs' = Append(evs, <<"L", Top.L>>)
@@ -86,14 +88,14 @@ GenLoop == /\ Top.p = "gen" /\ Top.st = "loop" /\ ret = NoRet
                    /\ UNCHANGED ret
               ELSE /\ Return(ROk(Top.left)) /\ UNCHANGED <<ticks, evs>>
            /\ UNCHANGED <<hist, status, result>>
-GenAfterConv == /\ Top.p = "gen" /\ Top.st = "conv" /\ ret # NoRet
+GenAfterConv == /\ Running /\ Top.p = "gen" /\ Top.st = "conv" /\ ret # NoRet
                 /\ IF ret.ok THEN stack' = Repl([Top EXCEPT !.st = "loop", !.left = ret.node]) /\ ret' = NoRet
                              ELSE Return(ret)
                 /\ UNCHANGED <<hist, status, result, ticks, evs>>
 
 \* ---- parse_number --------------------------------------------------------
 PNumStep ==
-  /\ Top.p = "pnum" /\ ret = NoRet
+  /\ Running /\ Top.p = "pnum" /\ ret = NoRet
   /\ LET k == cur p0 == pos IN
      CASE k \in {"ans", "const"} ->
             /\ Advance /\ Return(ROk(<<k, p0>>)) /\ UNCHANGED <<status, result, ticks>>
@@ -109,11 +111,11 @@ PNumStep ==
        [] k \in {"fv", "fa"} ->
             /\ Advance /\ stack' = Repl([FItems(k, p0, <<>>) EXCEPT !.st = "lp"]) /\ UNCHANGED <<ret, status, result, ticks>>
        [] OTHER -> Fail /\ UNCHANGED <<hist, ticks, evs>>
-SignAfter == /\ Top.p = "sign" /\ ret # NoRet
+SignAfter == /\ Running /\ Top.p = "sign" /\ ret # NoRet
              /\ Return(IF ret.ok /\ Top.neg THEN ROk(<<"neg", ret.node>>) ELSE ret)
              /\ UNCHANGED <<hist, status, result, ticks, evs>>
 \* get_enclosed_elements_with_impl_mult: check_paren(closer), then implicit_multiply
-EnclAfter == /\ Top.p = "encl" /\ ret # NoRet
+EnclAfter == /\ Running /\ Top.p = "encl" /\ ret # NoRet
              /\ IF ~ret.ok THEN Return(ret) /\ UNCHANGED <<hist, status, result, evs>>
                 ELSE IF cur = Close(Top.k)
                      THEN Advance /\ stack' = Repl(FImpl(<<Top.k, ret.node>>)) /\ ret' = NoRet /\ UNCHANGED <<status, result>>
@@ -121,15 +123,15 @@ EnclAfter == /\ Top.p = "encl" /\ ret # NoRet
              /\ UNCHANGED ticks
 
 \* ---- function_static_arguments(n) ----------------------------------------
-StaticLp == /\ Top.p = "static" /\ Top.st = "lp" /\ ret = NoRet
+StaticLp == /\ Running /\ Top.p = "static" /\ Top.st = "lp" /\ ret = NoRet
             /\ IF cur = "lp" THEN Advance /\ stack' = Repl([Top EXCEPT !.st = "arg"]) /\ UNCHANGED <<ret, status, result>>
                              ELSE Fail /\ UNCHANGED <<hist, evs>>
             /\ UNCHANGED ticks
-StaticArg == /\ Top.p = "static" /\ Top.st = "arg" /\ ret = NoRet
+StaticArg == /\ Running /\ Top.p = "static" /\ Top.st = "arg" /\ ret = NoRet
              /\ ticks' = ticks + 1
              /\ stack' = Append(Repl([Top EXCEPT !.st = "after"]), FGen(LvlZero))
              /\ UNCHANGED <<hist, ret, status, result, evs>>
-StaticAfter == /\ Top.p = "static" /\ Top.st = "after" /\ ret # NoRet
+StaticAfter == /\ Running /\ Top.p = "static" /\ Top.st = "after" /\ ret # NoRet
                /\ IF ~ret.ok THEN Return(ret) /\ UNCHANGED <<hist, status, result, evs>>
                   ELSE LET acc == Append(Top.acc, ret.node) IN
                        IF Top.n = 1
@@ -140,11 +142,11 @@ StaticAfter == /\ Top.p = "static" /\ Top.st = "after" /\ ret # NoRet
                /\ UNCHANGED ticks
 
 \* ---- find_item_list ------------------------------------------------------
-ItemsLp == /\ Top.p = "items" /\ Top.st = "lp" /\ ret = NoRet
+ItemsLp == /\ Running /\ Top.p = "items" /\ Top.st = "lp" /\ ret = NoRet
            /\ IF cur = "lp" THEN Advance /\ stack' = Repl([Top EXCEPT !.st = "top"]) /\ UNCHANGED <<ret, status, result>>
                             ELSE Fail /\ UNCHANGED <<hist, evs>>
            /\ UNCHANGED ticks
-ItemsTop == /\ Top.p = "items" /\ Top.st = "top" /\ ret = NoRet
+ItemsTop == /\ Running /\ Top.p = "items" /\ Top.st = "top" /\ ret = NoRet
             /\ ticks' = ticks + 1
             /\ IF Top.acc = <<>> /\ cur = "rp"
                THEN \* an empty list: avg() is 0, every other aggregate rejects it (at the closing bracket just consumed)
@@ -153,7 +155,7 @@ ItemsTop == /\ Top.p = "items" /\ Top.st = "top" /\ ret = NoRet
                          /\ status' = "err" /\ result' = [ok |-> FALSE, node |-> <<>>, pos |-> pos] /\ stack' = <<>> /\ ret' = NoRet
                ELSE /\ stack' = Append(Repl([Top EXCEPT !.st = "after"]), FGen(LvlZero))
                     /\ UNCHANGED <<hist, ret, status, result, evs>>
-ItemsAfter == /\ Top.p = "items" /\ Top.st = "after" /\ ret # NoRet
+ItemsAfter == /\ Running /\ Top.p = "items" /\ Top.st = "after" /\ ret # NoRet
               /\ IF ~ret.ok THEN Return(ret) /\ UNCHANGED <<hist, status, result, evs>>
                  ELSE LET acc == Append(Top.acc, ret.node) IN
                       IF cur = "comma" THEN Advance /\ stack' = Repl([Top EXCEPT !.st = "top", !.acc = acc]) /\ ret' = NoRet /\ UNCHANGED <<status, result>>
@@ -162,16 +164,18 @@ ItemsAfter == /\ Top.p = "items" /\ Top.st = "after" /\ ret # NoRet
               /\ UNCHANGED ticks
 
 \* ---- implicit_multiply ---------------------------------------------------
-ImplTest == /\ Top.p = "impl" /\ Top.st = "test" /\ ret = NoRet
+ImplTest == /\ Running /\ Top.p = "impl" /\ Top.st = "test" /\ ret = NoRet
             /\ IF Trig(cur) THEN stack' = Append(Repl([Top EXCEPT !.st = "after"]), FGen(LvlMul)) /\ UNCHANGED ret
                             ELSE Return(ROk(Top.node))
             /\ UNCHANGED <<hist, status, result, ticks, evs>>
-ImplAfter == /\ Top.p = "impl" /\ Top.st = "after" /\ ret # NoRet
+ImplAfter == /\ Running /\ Top.p = "impl" /\ Top.st = "after" /\ ret # NoRet
              /\ Return(IF ret.ok THEN ROk(<<"imul", Top.node, ret.node>>) ELSE ret)
              /\ UNCHANGED <<hist, status, result, ticks, evs>>
 
 \* ---- convert_token_to_node -----------------------------------------------
-ConvStep == /\ Top.p = "conv" /\ ret = NoRet
+BinName(s) == SubSeq(s, 10, Len(s))                    \* "binafter:" has nine characters
+IsBinAfter(k) == Len(k) > 9 /\ SubSeq(k, 1, 9) = "binafter:"
+ConvStep == /\ Running /\ Top.p = "conv" /\ ret = NoRet /\ ~IsBinAfter(Top.k)
             /\ LET k == Top.k p0 == pos IN
                CASE k \in BinOps -> /\ Advance /\ stack' = Append(Repl([Top EXCEPT !.k = "binafter:" \o k]), FGen(Prec(k)))
                                     /\ UNCHANGED <<ret, status, result>>
@@ -180,9 +184,7 @@ ConvStep == /\ Top.p = "conv" /\ ret = NoRet
                  [] k = "sup" -> Advance /\ Return(ROk(<<"psup", Top.left, p0>>)) /\ UNCHANGED <<status, result>>
                  [] OTHER -> Fail /\ UNCHANGED <<hist, evs>>
             /\ UNCHANGED ticks
-BinName(s) == SubSeq(s, 10, Len(s))                    \* "binafter:" has nine characters
-IsBinAfter(k) == Len(k) > 9 /\ SubSeq(k, 1, 9) = "binafter:"
-ConvAfter == /\ Top.p = "conv" /\ ret # NoRet
+ConvAfter == /\ Running /\ Top.p = "conv" /\ ret # NoRet /\ IsBinAfter(Top.k)
              /\ Return(IF ret.ok THEN ROk(<<BinName(Top.k), Top.left, ret.node>>) ELSE ret)
              /\ UNCHANGED <<hist, status, result, ticks, evs>>
 
@@ -193,10 +195,9 @@ Finish == /\ status = "run" /\ stack = <<>> /\ ret # NoRet
           /\ ret' = NoRet
           /\ UNCHANGED <<hist, stack, ticks, evs>>
 
-Running == status = "run" /\ stack # <<>>
-MNext == \/ (Running /\ (GenEnter \/ GenAfterNum \/ GenLoop \/ GenAfterConv \/ PNumStep \/ SignAfter \/ EnclAfter
-                         \/ StaticLp \/ StaticArg \/ StaticAfter \/ ItemsLp \/ ItemsTop \/ ItemsAfter
-                         \/ ImplTest \/ ImplAfter \/ (ConvStep /\ ~IsBinAfter(Top.k)) \/ (ConvAfter /\ IsBinAfter(Top.k))))
+MNext == \/ GenEnter \/ GenAfterNum \/ GenLoop \/ GenAfterConv \/ PNumStep \/ SignAfter \/ EnclAfter
+         \/ StaticLp \/ StaticArg \/ StaticAfter \/ ItemsLp \/ ItemsTop \/ ItemsAfter
+         \/ ImplTest \/ ImplAfter \/ ConvStep \/ ConvAfter
          \/ Finish
 MSpec == Init /\ [][MNext]_mvars
 MFair == MSpec /\ WF_mvars(MNext)
